@@ -34,6 +34,8 @@ pub enum Ev {
   Repair(u8),
   /// SendRepairFrags timer of reader r fires
   RepairFrags(u8),
+  /// NACKFRAG of reader r for fragments of a fragmented sample
+  NackFrag(u8, i64, Vec<u32>),
   /// CacheCleaning timer fires
   Clean,
 }
@@ -75,6 +77,8 @@ struct RModel {
   pending_req: BTreeSet<i64>,
   /// fragments of requested fragmented samples received so far
   frag_got: BTreeMap<i64, BTreeSet<u32>>,
+  /// single fragments requested by NACKFRAG and not yet answered
+  frag_req: BTreeSet<(i64, u32)>,
 }
 
 pub struct M {
@@ -173,6 +177,14 @@ impl Model for M {
         }
         Ev::Repair(r) => sim.repair(*r),
         Ev::RepairFrags(r) => sim.repair_frags(*r),
+        Ev::NackFrag(r, sn, frags) => {
+          sim.nackfrag(*r, *sn, frags);
+          if let Some(m) = rm.get_mut(r) {
+            for f in frags {
+              m.frag_req.insert((*sn, *f));
+            }
+          }
+        }
         Ev::Clean => sim.clean(),
       }
       for sn in &new_sns {
@@ -249,6 +261,8 @@ impl Model for M {
                 for s in set {
                   m.pending_req.remove(s);
                 }
+                let (gs, gb, gset) = (*start, *base, set.clone());
+                m.frag_req.retain(|(s, _)| !((gs <= *s && *s < gb) || gset.contains(s)));
               }
             }
             Sub::Heartbeat { first, last, .. } => {
@@ -268,6 +282,7 @@ impl Model for M {
         }
         for (sn, f, nfr) in frag_seen {
           if let Some(m) = rm.get_mut(dest) {
+            m.frag_req.remove(&(sn, f));
             let e = m.frag_got.entry(sn).or_default();
             e.insert(f);
             if e.len() as u32 == nfr {
@@ -315,6 +330,10 @@ impl Model for M {
       for (r, m) in &rm {
         let (a, b) = armed.get(r).copied().unwrap_or((false, false));
         comparisons += 1;
+        let open_frags: Vec<(i64, u32)> = m.frag_req.iter().filter(|(s, _)| history.contains(s)).copied().collect();
+        if !a && !b && !open_frags.is_empty() && violation.is_none() {
+          violation = viol("fragment-request-unanswered", format!("after {ev:?}: reader {r} requested (sample, fragment) {open_frags:?} by NACKFRAG; the writer has no repair pending for it any more, but neither those fragments nor the whole sample nor a GAP was sent to it"));
+        }
         if !a && !b && !m.pending_req.is_empty() && violation.is_none() {
           violation = viol("request-unanswered", format!("after {ev:?}: reader {r} requested samples {:?} by ACKNACK; the writer has no repair pending for it any more, but neither the data nor a GAP covering them was sent to it", m.pending_req));
         }
@@ -369,6 +388,13 @@ impl Model for M {
             next.push(Ev::Ack(*r, b, vec![last, last + 1]));
           }
         }
+        // NACKFRAG for the newest fragmented sample still retrievable: the first, the last, the last two fragments
+        if let Some(big) = written.iter().rev().find(|(sn, (len, to))| *len == BIG && to.map_or(true, |t| t == *r) && sim.history().contains(*sn)).map(|(sn, _)| *sn) {
+          let nfr = ((4 + BIG) as u32).div_ceil(FRAG as u32);
+          next.push(Ev::NackFrag(*r, big, vec![1]));
+          next.push(Ev::NackFrag(*r, big, vec![nfr]));
+          next.push(Ev::NackFrag(*r, big, vec![nfr - 1, nfr]));
+        }
         // a base below an earlier one (a reader that lost state, or a reordered ACKNACK): what it requests is a
         // request for an advertised sequence number like any other
         let low = m.base - 1;
@@ -403,7 +429,7 @@ impl Model for M {
     let digest = format!(
       "{} ## {:?} w{:?} t{} b{}",
       sim.digest(),
-      rm.iter().map(|(r, m)| (*r, m.reliable, m.base, m.cur, m.needs.clone(), m.pending_req.clone(), m.frag_got.clone())).collect::<Vec<_>>(),
+      rm.iter().map(|(r, m)| (*r, m.reliable, m.base, m.cur, m.needs.clone(), m.pending_req.clone(), m.frag_got.clone(), m.frag_req.clone())).collect::<Vec<_>>(),
       written,
       nticks,
       burst_done
@@ -529,7 +555,7 @@ pub fn run(tier: &str) -> i32 {
     rep.absorb_bfs(&m.cfg.name.clone(), &m.describe(), &bcfg, st);
     rep.machinery_errors.extend(errs);
   }
-  rep.set("alphabet", json!("Write, WriteBig (3 fragments), WriteTo(r) for matched and for currently unmatched r, Burst(40), Ack(r, base in {prev, prev+1, first, last+1} and the regressing prev-1, set in {{}, {base}, {base,last}, {last,last+1}}), Match(r), Lose(r), Reannounce(r) (discovery announces the matched reader again), HbTick, Repair(r)/RepairFrags(r) when armed, Clean"));
+  rep.set("alphabet", json!("Write, WriteBig (3 fragments), WriteTo(r) for matched and for currently unmatched r, Burst(40), Ack(r, base in {prev, prev+1, first, last+1} and the regressing prev-1, set in {{}, {base}, {base,last}, {last,last+1}}), Match(r), Lose(r), Reannounce(r) (discovery announces the matched reader again), HbTick, NackFrag(r, newest fragmented sample, {first} | {last} | {last two}), Repair(r)/RepairFrags(r) when armed, Clean"));
   rep.assumptions = vec![
     "Puppet readers are truthful: ACKNACK bases never decrease and never exceed last+1 (C03 is the property about that)".into(),
     "Timers are modelled: SendRepairData(r) is offered exactly while rp.repair_mode, SendRepairFrags(r) exactly while fragments are requested (the re-arm rules of Writer::handle_timed_event), heartbeat tick and cache cleaning at any time".into(),
